@@ -177,7 +177,7 @@ func init() {
 			emu := xsensemulator.NewEmulator(ee)
 			cl := xsens.NewClient(ce)
 			ctx, cancel := context.WithCancel(context.Background())
-			go func() { _ = emu.Receive(ctx) }()
+			go func() { protect(func() { _ = emu.Receive(ctx) }) }()
 			rec := xsens.UTCTime{Ns: 0xffffffff}
 			got := make(chan xsens.UTCTime, 1)
 			go func() {
